@@ -6,7 +6,7 @@ import random
 
 from vlib import core, tlc
 
-SAFETY = dict(invariants=['C13_Mutex'], properties=['C13_ToldTruth', 'C13_NoFalseBusy', 'C13_CrashFree', 'C13_GoneNeverGranted', 'C13_GrantNext', 'C13_OnlyHolderFrees'])
+SAFETY = dict(invariants=['C13_Mutex'], properties=['C13_ToldTruth', 'C13_NoFalseBusy', 'C13_CrashFree', 'C13_GoneNeverGranted', 'C13_GrantNext', 'C13_OnlyHolderFrees', 'C13_FreedOnlyByHolder'])
 
 
 def gen(chk, name, clients, sim=None, seed=0):
